@@ -16,6 +16,17 @@ def shared_suffix_cases():
                 yield (2, 2, (cand[i], cand[j]))
 
 
+def cnf2_shapes():
+    """S -> (any body of length 3), C#CNF#1 -> (body <= 1), C#CNF#2 -> (body <= 1) over one terminal: grammars in which
+    both pre-existing binarisation names are in use while a long production has to be decomposed."""
+    from itertools import product
+    short = [()] + [(s,) for s in range(4)]
+    for body3 in product(range(4), repeat=3):
+        for b1 in short:
+            for b2 in short:
+                yield (3, 1, tuple(sorted([(0, body3), (1, b1), (2, b2)])))
+
+
 class C09(CFGProp):
     ID = "C09"
     RULE = ("every grammar of CFG(v,t,b,p) modulo renaming plus all pairs of long productions sharing a suffix; each of "
@@ -30,6 +41,7 @@ class C09(CFGProp):
     def layers(self, tier, seed):
         extra = [Layer("shared-suffix pairs CFG(2,2,4,2)", shared_suffix_cases,
                        policies=["natural@plain", "1@plain", "2@plain"])]
+        extra.append(Layer("long production + used C#CNF#1, C#CNF#2", cnf2_shapes, policies=["natural@cnf2", "1@cnf2"]))
         return cfg_layers(tier, adversarial=("cnf",), extra_quick=extra, extra_thorough=extra)
 
     def reference(self, case):
